@@ -89,7 +89,10 @@ Code(o) == CASE o.op = "stat" -> 0 [] o.op = "close" -> 1 [] o.op = "read" -> 10
 PagingOps(kind) == IF kind = "file" THEN {Op("read", 1), Op("read", 2)}
                    ELSE {Op("readdir", -1), Op("readdir", 1), Op("readdir", 2)}
 CoreOps(kind) == PagingOps(kind) \cup {Op("close", 0)}
-SeqSetOf(kind) == SeqsUpTo(OpsFor(kind), FullOps) \cup SeqsUpTo(CoreOps(kind), MaxOps) \cup SeqsUpTo(PagingOps(kind), DeepOps)
+AllSeqs(kind) == SeqsUpTo(OpsFor(kind), FullOps) \cup SeqsUpTo(CoreOps(kind), MaxOps) \cup SeqsUpTo(PagingOps(kind), DeepOps)
+\* only the maximal sequences are run: a proper prefix of an exported sequence is judged as part of it
+Maximal(A, kind) == {s \in A : \A o \in OpsFor(kind) : Append(s, o) \notin A}
+SeqSetOf(kind) == Maximal(AllSeqs(kind), kind)
 Coded(S) == AsTuple([i \in 1..Len(S) |-> AsTuple([j \in 1..Len(S[i]) |-> Code(S[i][j])])])
 \* (everything used more than once is an operator ARGUMENT: TLC evaluates an argument once)
 CasesWith(TS, PS, FS, DS) ==
